@@ -44,7 +44,8 @@ Record guards := {
   g_use_str : bool;          (* fix12 rfc7517/models.py:validate_dict_key_use_operations  isinstance(use, str) *)
   g_1pu_sender : bool;       (* fix13 drafts/jwe_ecdh_1pu.py: sender_key is None -> InvalidExchangeKeyError *)
   g_exchange_type : bool;    (* fix14 rfc7518/ec_key.py:exchange_derive_key  isinstance(key, ECKey) *)
-  g_1pu_keytype : bool       (* fix15 drafts/jwe_ecdh_1pu.py: self.check_key_type(recipient_key) *)
+  g_1pu_keytype : bool;      (* fix15 drafts/jwe_ecdh_1pu.py: self.check_key_type(recipient_key) *)
+  g_kid_repr : bool          (* fix16 _keys.py:get_by_kid: a kid that is not a str is not formatted into the message *)
 }.
 
 Definition all_guards : guards :=
@@ -53,16 +54,17 @@ Definition all_guards : guards :=
      g_algstr_jwe := true; g_algstr_jws := true; g_crv_ec := true; g_crv_okp := true;
      g_p2c := true; g_zlib := true; g_eddsa := true; g_kt7797 := true; g_ek_default := true;
      g_rec_header := true; g_rec_claims := true; g_use_str := true;
-     g_1pu_sender := true; g_exchange_type := true; g_1pu_keytype := true |}.
+     g_1pu_sender := true; g_exchange_type := true; g_1pu_keytype := true; g_kid_repr := true |}.
 
 Definition guards_list (g : guards) : list bool :=
   [g_dict_jws_compact g; g_dict_jwe_compact g; g_dict_jws_json g; g_dict_7797_json g;
    g_dict_jwe_json g; g_crit g; g_enc_present g; g_algstr_jwe g; g_algstr_jws g; g_crv_ec g;
    g_crv_okp g; g_p2c g; g_zlib g; g_eddsa g; g_kt7797 g; g_ek_default g; g_rec_header g;
-   g_rec_claims g; g_use_str g; g_1pu_sender g; g_exchange_type g; g_1pu_keytype g].
+   g_rec_claims g; g_use_str g; g_1pu_sender g; g_exchange_type g; g_1pu_keytype g;
+   g_kid_repr g].
 
 
-(* guards from a list of 22 booleans in the order of [guards_list] (missing = true) *)
+(* guards from a list of 23 booleans in the order of [guards_list] (missing = true) *)
 Definition guards_of (l : list bool) : guards :=
   let n i := nth i l true in
   {| g_dict_jws_compact := n 0%nat; g_dict_jwe_compact := n 1%nat; g_dict_jws_json := n 2%nat;
@@ -70,7 +72,8 @@ Definition guards_of (l : list bool) : guards :=
      g_algstr_jwe := n 7%nat; g_algstr_jws := n 8%nat; g_crv_ec := n 9%nat; g_crv_okp := n 10%nat;
      g_p2c := n 11%nat; g_zlib := n 12%nat; g_eddsa := n 13%nat; g_kt7797 := n 14%nat;
      g_ek_default := n 15%nat; g_rec_header := n 16%nat; g_rec_claims := n 17%nat; g_use_str := n 18%nat;
-     g_1pu_sender := n 19%nat; g_exchange_type := n 20%nat; g_1pu_keytype := n 21%nat |}.
+     g_1pu_sender := n 19%nat; g_exchange_type := n 20%nat; g_1pu_keytype := n 21%nat;
+     g_kid_repr := n 22%nat |}.
 Lemma guards_of_list g : guards_of (guards_list g) = g.
 Proof. destruct g; reflexivity. Qed.
 
@@ -340,12 +343,35 @@ Definition jws_get_alg (g : guards) (reg : jws_reg) (name : pv) : res jws_alg_ro
 (* ------------------------------------------------------------------ *)
 (* jwk.py:guess_key, _keys.py:KeySet.get_by_kid, rfc7517 check_use      *)
 (* ------------------------------------------------------------------ *)
-Definition get_by_kid (ks : list key) (kid : pv) : res key :=
+(* RECURSION INTO ATTACKER-CONTROLLED VALUES.  The operations the consume paths apply to header values
+   (membership, lookup, dict.update, iteration over one level, isinstance, == against a str) do not recurse
+   into the values, and the model functions above do not either.  Anything that does recurse — repr / str /
+   f-string formatting, copy.deepcopy, json.dumps of a received header, == between two containers — raises
+   RecursionError on a value nested deeply enough (a JSON-serialization object can carry any depth; JSON text
+   up to the depth json.loads accepts) and needs a depth or type guard.  The only such place on the consume
+   paths of /repo is the error message of KeySet.get_by_kid (guard g_kid_repr).  [repr_limit] is a stand-in for
+   the interpreter-dependent depth at which repr gives up: only its existence matters. *)
+Fixpoint pv_depth (v : pv) : N :=
+  match v with
+  | PList l => 1 + (fix go (l : list pv) : N := match l with [] => 0 | x :: r => N.max (pv_depth x) (go r) end) l
+  | PDict d => 1 + (fix go (d : list (str * pv)) : N :=
+                      match d with [] => 0 | (_, x) :: r => N.max (pv_depth x) (go r) end) d
+  | _ => 0
+  end.
+Definition repr_limit : N := 100.
+(* f'...{v}...' *)
+Definition py_format (v : pv) : res unit := if pv_depth v <=? repr_limit then Ok tt else Err ERuntime.
+
+Definition get_by_kid (g : guards) (ks : list key) (kid : pv) : res key :=
+  let not_found :=
+    if g_kid_repr g && negb (match kid with PNone | PStr _ => true | _ => false end)
+    then Err (EJose InvalidKeyIdError)                                              (* fix16 *)
+    else do _ <- py_format kid; Err (EJose InvalidKeyIdError) in
   match kid, ks with
   | PNone, [k] => Ok k
   | _, _ => match find (fun k => py_eq (k_kid k) kid) ks with
             | Some k => Ok k
-            | None => Err (EJose InvalidKeyIdError)
+            | None => not_found
             end
   end.
 
@@ -358,10 +384,10 @@ Definition norm_key (ka : keyarg) : keyarg :=
   | ACall r => r
   | x => x
   end.
-Definition guess_key (ka : keyarg) (hs : res pv) : res key :=
+Definition guess_key (g : guards) (ka : keyarg) (hs : res pv) : res key :=
   match norm_key ka with
   | AKey k | AText k => Ok k
-  | AKeySet ks => do h <- hs; do kid <- py_get_str h (SK "kid"); get_by_kid ks kid
+  | AKeySet ks => do h <- hs; do kid <- py_get_str h (SK "kid"); get_by_kid g ks kid
   | AOther | ACall _ => Err EValue
   end.
 
@@ -410,7 +436,7 @@ Definition jws_extract_compact (g : guards) (P : prims) (value : bytes) : res co
 Definition jws_validate (g : guards) (P : prims) (reg : jws_reg) (ka : keyarg) (kt : bool)
            (headers : pv) (signing_input sigseg : bytes) : res bool :=
   do _ <- jws_check_header g reg headers;
-  do k <- guess_key ka (Ok headers);
+  do k <- guess_key g ka (Ok headers);
   do _ <- check_use k "sig";
   do a <- py_getitem_str headers (SK "alg");
   do row <- jws_get_alg g reg a;
@@ -528,7 +554,7 @@ Definition verify_signature (g : guards) (P : prims) (reg : jws_reg) (ka : keyar
   do _ <- jws_check_header g reg headers;
   do a <- py_getitem_str headers (SK "alg");
   do row <- jws_get_alg g reg a;
-  do k <- guess_key ka (member_headers (fst member) (snd member));
+  do k <- guess_key g ka (member_headers (fst member) (snd member));
   do _ <- check_use k "sig";
   do _ <- jws_check_key_type row k;
   do hasp <- py_in (PS "protected") sig;
@@ -932,7 +958,7 @@ Fixpoint recipients_loop (g : guards) (P : prims) (reg : jwe_reg) (o : jwe_obj) 
 Definition decode_error {A} : res A := Err (EJose DecodeError).
 
 (* jwe._guess_sender_key(recipient, sender_key) behind `if sender_key:` ; [hs] = recipient.headers() *)
-Definition guess_sender_key (sa : senderarg) (hs : res pv) : res (option key) :=
+Definition guess_sender_key (g : guards) (sa : senderarg) (hs : res pv) : res (option key) :=
   match sa with
   | SNone | SSet [] => Ok None                        (* falsy: no sender key attached *)
   | SKey k => do _ <- check_use k "enc"; Ok (Some k)
@@ -940,7 +966,7 @@ Definition guess_sender_key (sa : senderarg) (hs : res pv) : res (option key) :=
       do h <- hs;
       do skid <- py_get_str h (SK "skid");
       if py_truth skid then
-        do k <- get_by_kid ks skid; do _ <- check_use k "enc"; Ok (Some k)
+        do k <- get_by_kid g ks skid; do _ <- check_use k "enc"; Ok (Some k)
       else Err EValue
   end.
 
@@ -999,9 +1025,9 @@ Definition jwe_decrypt_compact_b (g : guards) (P : prims) (reg : jwe_reg) (ka : 
       do ct <- b64d cts;
       do tag <- b64d tgs;
       do ek <- b64d eks;
-      do k <- guess_key ka (recipient_headers false protected PNone PNone);
+      do k <- guess_key g ka (recipient_headers false protected PNone PNone);
       do _ <- check_use k "enc";
-      do sk <- guess_sender_key sa (recipient_headers false protected PNone PNone);
+      do sk <- guess_sender_key g sa (recipient_headers false protected PNone PNone);
       let o := {| jo_json := false; jo_protected := protected; jo_unprotected := PNone; jo_aad := None;
                   jo_pseg := hs; jo_iv := iv; jo_ct := ct; jo_tag := tag;
                   jo_recipients := [{| rc_header := PNone; rc_ek := Some ek; rc_key := k; rc_sender := sk |}] |} in
@@ -1039,15 +1065,15 @@ Definition extract_recipient (g : guards) (item : pv) : res (pv * option bytes) 
     Ok (h, Some ek)
   else Ok (h, if g_ek_default g then Some [] else None).        (* fix10 *)
 
-Fixpoint attach_keys (json : bool) (ka : keyarg) (sa : senderarg) (protected unprotected : pv) (l : list (pv * option bytes))
+Fixpoint attach_keys (g : guards) (json : bool) (ka : keyarg) (sa : senderarg) (protected unprotected : pv) (l : list (pv * option bytes))
   : res (list recipient) :=
   match l with
   | [] => Ok []
   | (h, ek) :: r =>
-      do k <- guess_key ka (recipient_headers json protected unprotected h);
+      do k <- guess_key g ka (recipient_headers json protected unprotected h);
       do _ <- check_use k "enc";
-      do sk <- guess_sender_key sa (recipient_headers json protected unprotected h);
-      do t <- attach_keys json ka sa protected unprotected r;
+      do sk <- guess_sender_key g sa (recipient_headers json protected unprotected h);
+      do t <- attach_keys g json ka sa protected unprotected r;
       Ok ({| rc_header := h; rc_ek := ek; rc_key := k; rc_sender := sk |} :: t)
   end.
 
@@ -1065,7 +1091,7 @@ Definition jwe_decrypt_json (g : guards) (P : prims) (reg : jwe_reg) (ka : keyar
   do aad <- (if hasaad then do a <- seg_of data "aad"; Ok (Some (snd a)) else Ok None);
   do items <- (if general then do rs <- py_getitem_str data (SK "recipients"); py_iter rs else Ok [data]);
   do rl <- mapM (extract_recipient g) items;
-  do recs <- attach_keys true ka sa protected unprotected rl;
+  do recs <- attach_keys g true ka sa protected unprotected rl;
   perform_decrypt g P reg
     {| jo_json := true; jo_protected := protected; jo_unprotected := unprotected; jo_aad := aad;
        jo_pseg := pseg; jo_iv := snd iv; jo_ct := snd ct; jo_tag := snd tag; jo_recipients := recs |}.
